@@ -5,7 +5,8 @@
 id="$1"; shift
 ks="${@:-1 2 3}"
 wt=/tmp/seed-$id
-export VERIF_WORK=/verif/.work-seed VERIF_EVIDENCE=/verif/.work-seed/evidence VERIF_REPLAYS=/verif/.work-seed/replays
+W=${SEED_WORK:-/verif/.work-seed}
+export VERIF_WORK=$W VERIF_EVIDENCE=$W/evidence VERIF_REPLAYS=$W/replays
 for k in $ks; do
   sd=/tmp/seeded-$id-$k
   [ -f $sd/patch.diff ] || { echo "SEED $id-$k missing"; continue; }
